@@ -20,6 +20,11 @@ GC = "verde.coordinates.grid_coordinates"
 
 def check(ctx):
     qn = QN
+    # the block centres are what grid_coordinates / line_coordinates return for pixel registration (their own rules are C07's): the generic
+    # rules of this property look at those two callees as well
+    for callee_q in (GC, "verde.coordinates.line_coordinates"):
+        if callee_q in ctx.pkg.functions:
+            ctx.paths(callee_q)
     K.roles_rule(ctx, "R2", [qn, "verde.utils.kdtree"], with_return=True, require={qn: [{"tree-query"}, {"region-arg"}]})
     K.forwarding(ctx, "R1", qn, GC, {"spacing": ("param", "spacing"), "shape": ("param", "shape"), "adjust": ("param", "adjust")})
     K.literal_kw(ctx, "R1", qn, GC, "pixel_register", True, default=False)
@@ -55,8 +60,15 @@ def check(ctx):
         if len(qs) == 1:
             qa = qs[0][2][0] if qs[0][2] else None
             pts = ("call", ("glob", "numpy.transpose"), (("call", ("glob", "verde.base.utils.n_1d_arrays"), (("sub", chk, ("slice", NONE, const(2), NONE)), const(2)), (), 0),), (), 0)
-            ctx.check("R2", "%s|query-points|%s" % (qn, tag), True if qa is not None and canon(qa) == canon(pts) else None,
-                      "the query points are the C-order raveled (easting, northing) of the validated coordinates", fn=qn)
+            okq, whyq = (True if qa is not None and canon(qa) == canon(pts) else None), ""
+            if okq is None and qa is not None:
+                # a narrowing conversion of the query points (float32, an integer type): points near a block edge move across it for
+                # coordinates that need more digits than the narrow type keeps (UTM-sized values, small blocks)
+                nc = [x for x, k_ in Q.narrowing_casts(qa) if k_ == "narrowing"]
+                if nc:
+                    okq, whyq = False, "the query points are converted with %s before the nearest-centre search: coordinates lose precision and points change block" % show(nc[0])[:60]
+            ctx.check("R2", "%s|query-points|%s" % (qn, tag), okq,
+                      "the query points are the C-order raveled (easting, northing) of the validated coordinates", bad=whyq, fn=qn)
             kq = Q.arg(ctx, qs[0], "k")
             ctx.check("R2", "%s|nearest-only|%s" % (qn, tag), True if kq in (None, const(1)) else (False if isinstance(kq, tuple) and is_const(kq) else None),
                       "the single nearest centre is queried", bad="the query asks for k=%s neighbours" % (show(kq) if isinstance(kq, tuple) else kq), fn=qn)
